@@ -391,6 +391,34 @@ func init() {
 		"(*sync.Pool).Get":        extPoolGet,
 		"(*sync.Pool).Put":        func(fr *frame, args []value) value { return nil },
 
+		// atomic.Value (struct{ v any }): the interface value is kept in field 0
+		"(*sync/atomic.Value).Load": func(fr *frame, args []value) value {
+			c := &(*fr.i.derefPtr(args[0])).(structure)[0]
+			if itf, ok := (*c).(iface); ok {
+				return itf
+			}
+			return iface{}
+		},
+		"(*sync/atomic.Value).Store": func(fr *frame, args []value) value {
+			itf, _ := args[1].(iface)
+			if itf.t == nil {
+				panic(targetPanic{iface{types.Typ[types.String], "sync/atomic: store of nil value into Value"}})
+			}
+			c := &(*fr.i.derefPtr(args[0])).(structure)[0]
+			fr.i.logStore(c)
+			*c = itf
+			return nil
+		},
+		"(*sync/atomic.Value).Swap": func(fr *frame, args []value) value {
+			c := &(*fr.i.derefPtr(args[0])).(structure)[0]
+			old, ok := (*c).(iface)
+			if !ok {
+				old = iface{}
+			}
+			fr.i.logStore(c)
+			*c = args[1]
+			return old
+		},
 		"sync/atomic.LoadInt32":   extAtomicLoad,
 		"sync/atomic.LoadInt64":   extAtomicLoad,
 		"sync/atomic.LoadUint32":  extAtomicLoad,
